@@ -199,7 +199,8 @@ def cases(tier, rng, dist, focus=None):
         n = rng.randint(1, 5)
         vals = [Fraction(rng.randint(-5, 5)) for _ in range(2 * n)]
         kind = rng.choice(["add", "mul", "bad", "cube", "badmul", "add", "mul", "left_only", "right_only"])
-        yield {"f": "pot", "x": [str(v) for v in vals[:n]], "y": [str(v) for v in vals[n:]], "kind": kind, "d": str(Fraction(rng.randint(-9, 9), rng.choice([1, 2])))}
+        yield {"f": "pot", "x": [str(v) for v in vals[:n]], "y": [str(v) for v in vals[n:]], "kind": kind, "d": str(Fraction(rng.randint(-9, 9), rng.choice([1, 2]))),
+               "ff": rng.choice([None, None, rng.randint(0, 99)])}
     # the named statistics under a non-additive shift, many repetitions, outlying values: the hit count must come from
     # the named statistic in both keep_dist branches
     for k in range(16 if tier == "quick" else 160):
@@ -700,13 +701,29 @@ def pot_fns(c):
 
 def run_pot(c):
     x = arr([F(v) for v in c["x"]]); y = arr([F(v) for v in c["y"]])
+    ff = None
+    if c.get("ff") is not None:
+        # FAILURE PATH: calls of the neighbouring functions that fail first (two_sample_conf_int rejecting its arguments or
+        # failing inside its root search, two_sample_shift given a single callable) must not weaken the inverse check
+        import warnings
+        k = c["ff"] % 4
+        xs, ys = np.array([1.0, 2.0, 3.0, 5.0]), np.array([0.0, 2.0, 2.0, 1.0])
+        def _tsci(**kw):
+            with warnings.catch_warnings():
+                warnings.simplefilter("ignore")
+                return core.two_sample_conf_int(xs, ys, reps=20, seed=3, **kw)
+        ff = fail_first([[("two_sample_conf_int, unknown statistic", lambda: _tsci(stat="median")),
+                          ("two_sample_conf_int, root search without a sign change", lambda: _tsci(cl=1e-9, alternative="lower")),
+                          ("two_sample_conf_int, pair of functions as shift", lambda: _tsci(shift=(lambda u: u * 2, lambda u: u / 2))),
+                          ("two_sample_conf_int, bad alternative", lambda: _tsci(alternative="both"))][k],
+                         ("two_sample_shift, single callable", lambda: core.two_sample_shift(xs, ys, reps=3, seed=3, shift=(lambda u: u)))])
     if c["kind"] in ("bad", "badmul", "cube", "left_only", "right_only"):
         # a valid pair from the same factory first (self-contained replay of history-dependent guards)
         g, ginv = _affine_pair(1.0, 1.0, 0) if c["kind"] == "bad" else (_scale_pair(2.0, 2.0) if c["kind"] == "badmul" else _power_pair(1))
         guarded(lambda: utils.potential_outcomes(x.copy(), y.copy(), g, ginv))
     f, finv = pot_fns(c)
     r, unmod, _ = call_test(utils.potential_outcomes, (x, y, f, finv), {}, (x, y))
-    return {"r": [r[0], np.array(r[1], dtype=float).tolist()] if r[0] == "ok" else list(r), "unmodified": unmod}
+    return {"r": [r[0], np.array(r[1], dtype=float).tolist()] if r[0] == "ok" else list(r), "unmodified": unmod, "ff": ff}
 
 
 def real_call(c, seed, keep=True):
